@@ -117,7 +117,8 @@ def next_table(flag_sets=None, quick=False):
         raise facts.AnchorLost("Tokenizer fields %s (have %s)" % (sorted(need), fields))
     has_after = "after_data" in fields
     util_bodies = [b for b in u.bodies if b.npath.startswith("scpi::parser::tokenizer::util::skip_ws")]
-    consts = byte_constants(u, [body] + util_bodies)
+    # IEEE 488.2 section 7 special bytes are always classes of their own, whatever the code compares against
+    consts = byte_constants(u, [body] + util_bodies) | {ord(c) for c in "*:?;\n,#\"'()+-. "}
     classes = byte_classes(consts)
     eng = lexer_engine()
     rows = []
